@@ -1,4 +1,5 @@
-import SlugModel.Lemmas.TransEq
+import SlugModel.Lemmas.TrEq_normalizeSubpath
+import SlugModel.Lemmas.TrEq_splitSubPath
 /-!
 # C07 (tie by translation)
 
